@@ -302,10 +302,18 @@ class Env:
         big = []
         for p in residual[:64]:
             big.append(z3.Or(p.z3() > z3.RealVal("1/64"), p.z3() < -z3.RealVal("1/64")))
-        for extra in ([*bounds, z3.Or(*big)] if big else None, bounds):
+        # "soft" facts (e.g. integrality that was dropped from the proof obligations as a sound
+        # over-approximation) are only used here, to steer z3 to a model that can be replayed
+        soft = list(getattr(ctx, "soft", []))
+        attempts = []
+        if soft:
+            attempts.append(soft)
+        attempts.append(([*bounds, z3.Or(*big)] if big else None))
+        attempts.append(bounds)
+        for extra in attempts:
             if extra is None:
                 continue
-            r2, m2 = ctx.check_sat([neg, *extra], timeout_ms=min(ctx.timeout_ms, 10000))
+            r2, m2 = ctx.check_sat([neg, *extra], timeout_ms=min(ctx.timeout_ms, 15000))
             if r2 == "sat":
                 m = m2
                 break
